@@ -487,7 +487,7 @@ func TestVerif_C09(t *testing.T) {
 		p.send(p.assocRelease(99))
 		vWaitUntil(3*time.Second, func() bool { return a.conn(p.local) == nil })
 		p.close()
-		if res.nViol() > 400 {
+		if res.giveUp(400) {
 			break
 		}
 	}
@@ -671,7 +671,7 @@ func c09UP4(res *vResult) {
 		p.send(p.assocRelease(9))
 		vWaitUntil(3*time.Second, func() bool { return a.conn(p.local) == nil })
 		p.close()
-		if res.nViol() > 400 {
+		if res.giveUp(400) {
 			break
 		}
 	}
